@@ -134,3 +134,33 @@ pub fn all_strings(alphabet: &[&str], max_len: usize, mut f: impl FnMut(&str)) {
         }
     }
 }
+
+/// a borrowed result printed relative to the subject it must be a view of
+pub fn view(base: &str, sub: &str) -> String {
+    if sub.is_empty() {
+        return "@e".into();
+    }
+    let b = base.as_ptr() as usize;
+    let s = sub.as_ptr() as usize;
+    if s >= b && s + sub.len() <= b + base.len() {
+        format!("@{}+{}", s - b, sub.len())
+    } else {
+        "@copy".into()
+    }
+}
+
+pub fn opt<T>(o: Option<T>, f: impl FnOnce(T) -> String) -> String {
+    match o {
+        Some(t) => f(t),
+        None => "-".into(),
+    }
+}
+
+/// the three integers of a diagnostic Label, read from its Debug output (it has no accessors)
+pub fn label_numbers(dbg: &str) -> Option<(usize, usize)> {
+    let off = dbg.split("offset: ").nth(1)?;
+    let off: usize = off.split(|c: char| !c.is_ascii_digit()).next()?.parse().ok()?;
+    let len = dbg.split("len: ").nth(1)?;
+    let len: usize = len.split(|c: char| !c.is_ascii_digit()).next()?.parse().ok()?;
+    Some((off, len))
+}
